@@ -126,7 +126,6 @@ pub fn default_guards() -> Vec<String> {
         "mixed_type_index_out_of_table_order",   // X3
         "alter_drop_column",                     // D17, D17b
         "alter_add_column",                      // D16
-        "join_on_column_holding_null",           // J1
         "more_than_18_inserts_per_table",        // D9, D15
         "more_than_3_relations",                 // D15, F3 (tables + indexes)
     ]
